@@ -611,7 +611,7 @@ pub fn run_c06(report: &mut Report) {
             }
             *slow_keys.entry(class_hint.clone()).or_insert(0) += 1;
             let place = if case.desc.contains("hello") && case.replies <= 1 { "hello" } else { "reply" };
-            let kind = if case.desc.contains("grouped") { "several-messages-in-one-unit" } else { "cut-inside-delimiter-zone" };
+            let kind = if case.desc.contains("grouped") { "several-messages-in-one-unit" } else if case.desc.contains("exactly") || case.desc.contains("ending at byte") { "size-on-a-buffer-boundary" } else { "cut-inside-delimiter-zone" };
             report.violation(&format!("C06:{class}:{:?}:{place}:{kind}", case.xport), &format!("{:?}: {}: {what}", case.xport, case.desc), json!({"transport": format!("{:?}", case.xport), "hello_cuts": case.hello_cuts, "replies": case.replies, "reply_cuts": case.reply_cuts, "case": case.desc}));
         }
     }
